@@ -417,21 +417,7 @@ func runPCase(node gen.Node, c pCase) (string, error) {
 			return "", fmt.Errorf("sender did not finish")
 		}
 	}
-	// wait until everything (the down notifications too) is in the mailbox, queue by queue: a total count could
-	// be reached by a message that is not part of the scenario while a down notification is still on its way
-	expU, expS, expM := 0, len(victims), 0
-	for _, acts := range c.Senders {
-		for _, a := range acts {
-			switch a.Kind {
-			case 2, 3:
-				expU++
-			case 1:
-				expS++
-			case 0:
-				expM++
-			}
-		}
-	}
+	// every push has returned (sender scripts done, victims unregistered): the mailbox must now hold everything
 	deadline := time.Now().Add(10 * time.Second)
 	for {
 		info, err := node.ProcessInfo(rpid)
@@ -439,11 +425,11 @@ func runPCase(node gen.Node, c pCase) (string, error) {
 			return "", err
 		}
 		q := info.MailboxQueues
-		if int(q.Urgent) >= expU && int(q.System) >= expS && int(q.Main) >= expM && int(q.Log) >= c.Logs {
+		if int(q.Main+q.System+q.Urgent+q.Log) >= expected {
 			break
 		}
 		if time.Now().After(deadline) {
-			return "", fmt.Errorf("mailbox has %d/%d/%d/%d messages (urgent/system/main/log), expected %d/%d/%d/%d", q.Urgent, q.System, q.Main, q.Log, expU, expS, expM, c.Logs)
+			return "", fmt.Errorf("mailbox has %d of %d expected messages", q.Main+q.System+q.Urgent+q.Log, expected)
 		}
 		time.Sleep(time.Millisecond)
 	}
